@@ -7,6 +7,7 @@ import (
 	"net/url"
 	"strings"
 	"sync"
+	"time"
 
 	"github.com/ipfs/go-cid"
 	"github.com/ipni/go-libipni/dagsync/ipnisync"
@@ -25,6 +26,7 @@ type Publisher struct {
 	Idx    int
 	World  *syncdrv.World
 	Ads    []cid.Cid // Ads[i] = advertisement i+1
+	Ents   []cid.Cid // entries chain in traversal order; block numbers are len..1
 	Pub    *ipnisync.Publisher
 	TS     *httptest.Server
 	Maddr  multiaddr.Multiaddr
@@ -32,6 +34,7 @@ type Publisher struct {
 
 	mu       sync.Mutex
 	fail     map[cid.Cid]bool
+	stall    map[cid.Cid]bool
 	Requests int
 }
 
@@ -69,7 +72,8 @@ func NewPublisher(idx, chainLen int, tag string) *Publisher {
 	if err != nil {
 		panic(err)
 	}
-	p := &Publisher{Idx: idx, World: w, Ads: ads, Pub: pub, PeerID: pid, fail: map[cid.Cid]bool{}}
+	p := &Publisher{Idx: idx, World: w, Ads: ads, Pub: pub, PeerID: pid, fail: map[cid.Cid]bool{}, stall: map[cid.Cid]bool{}}
+	p.Ents = w.ChunkChain(EntriesLen)
 	p.TS = httptest.NewServer(p)
 	u, err := url.Parse(p.TS.URL)
 	if err != nil {
@@ -113,6 +117,30 @@ func (p *Publisher) FailNext(c cid.Cid, on bool) {
 	p.mu.Unlock()
 }
 
+// EntriesLen: blocks of every publisher's entries chain.
+const EntriesLen = 3
+
+// EntOf returns the number (len..1 in traversal order) of an entries block, 0 if none.
+func (p *Publisher) EntOf(c cid.Cid) int {
+	for i, e := range p.Ents {
+		if e == c {
+			return len(p.Ents) - i
+		}
+	}
+	return 0
+}
+
+// StallNext makes the next request for block c hang until the client gives up.
+func (p *Publisher) StallNext(c cid.Cid, on bool) {
+	p.mu.Lock()
+	if on {
+		p.stall[c] = true
+	} else {
+		delete(p.stall, c)
+	}
+	p.mu.Unlock()
+}
+
 const ipniPrefix = "/ipni/v1/ad/"
 
 func (p *Publisher) ServeHTTP(w http.ResponseWriter, r *http.Request) {
@@ -124,14 +152,27 @@ func (p *Publisher) ServeHTTP(w http.ResponseWriter, r *http.Request) {
 	}
 	p.mu.Lock()
 	p.Requests++
-	failed := false
+	failed, stalled := false, false
 	if strings.HasPrefix(path, ipniPrefix) && path != ipniPrefix+"head" {
-		if c, err := cid.Decode(strings.TrimPrefix(path, ipniPrefix)); err == nil && p.fail[c] {
-			delete(p.fail, c)
-			failed = true
+		if c, err := cid.Decode(strings.TrimPrefix(path, ipniPrefix)); err == nil {
+			if p.fail[c] {
+				delete(p.fail, c)
+				failed = true
+			} else if p.stall[c] {
+				delete(p.stall, c)
+				stalled = true
+			}
 		}
 	}
 	p.mu.Unlock()
+	if stalled {
+		// accept the request and never answer: the client's timeout ends it
+		select {
+		case <-r.Context().Done():
+		case <-time.After(20 * time.Second):
+		}
+		return
+	}
 	if failed {
 		http.Error(w, "injected failure", http.StatusInternalServerError)
 		return
